@@ -62,6 +62,11 @@ func replayValues(x *Explorer, model string) map[string]uint64 {
 }
 
 type Result struct {
+	Open         [][]PrefixDecision // sub-trees given back to the work queue
+	Obligations  int
+	Discharged   int
+	Nontrivial   int // paths that executed at least one assertion with a non-constant condition
+	Samples      []string
 	Paths        int
 	Skipped      int
 	Infeasible   int
@@ -73,7 +78,7 @@ type Result struct {
 	Steps        int64
 	MaxTrail     int
 	Reached      map[string]int
-	FuncsTouched map[string]bool
+	FuncsTouched map[string]FuncInfo
 }
 
 type Machine struct {
@@ -82,6 +87,17 @@ type Machine struct {
 	inits   []*ssa.Function
 	MaxPaths int
 	StepLimit int64
+	Slice    time.Duration // after this much time in one work item the rest of the sub-tree is shed
+}
+
+func (m *Machine) SetParams(p map[string]int)  { m.i.params = p }
+func (m *Machine) SetKnown(k map[string]bool)  { m.i.known = k }
+func (m *Machine) Close()                      { m.i.x.S.close() }
+
+// ExploreItem explores the sub-tree below prefix.
+func (m *Machine) ExploreItem(fn *ssa.Function, prefix []PrefixDecision) *Result {
+	m.i.x.SetPrefix(prefix)
+	return m.Explore(fn)
 }
 
 func NewMachine(prog *ssa.Program, initPkgs []*ssa.Package, solverLog *os.File) *Machine {
@@ -132,7 +148,14 @@ func (m *Machine) resetGlobals() {
 	i.bufs = map[*value]value{}
 }
 
-var touched = map[string]bool{}
+// FuncInfo describes an in-module function that was executed (evidence: "functions encoded").
+type FuncInfo struct {
+	Name   string `json:"name"`
+	Instrs int    `json:"instrs"`
+	File   string `json:"file"`
+}
+
+var touched = map[string]FuncInfo{}
 var dumped bool
 var seenCrash = map[string]bool{}
 
@@ -147,9 +170,14 @@ func (m *Machine) Explore(fn *ssa.Function) *Result {
 	x := m.i.x
 	reached = res.Reached
 	violations = nil
+	q0, t0s := x.S.Queries, x.S.Time
+	m.i.obligations, m.i.discharged = 0, 0
+	m.i.stepLimit = m.StepLimit
+	started := time.Now()
 	for {
 		x.startPath()
 		m.i.steps = 0
+		m.i.nontrivial = false
 		m.i.panicStack = ""
 		m.i.locks = newLockState()
 		m.resetGlobals()
@@ -177,19 +205,55 @@ func (m *Machine) Explore(fn *ssa.Function) *Result {
 		}
 		res.Paths++
 		res.Steps += m.i.steps
+		if m.i.nontrivial {
+			res.Nontrivial++
+		}
+		if len(res.Samples) < 3 {
+			res.Samples = append(res.Samples, describePath(x, outcome))
+		}
 		if res.Paths >= m.MaxPaths {
 			break
+		}
+		if m.Slice > 0 && time.Since(started) > m.Slice {
+			res.Open = x.Shed()
 		}
 		if !x.next() {
 			break
 		}
 	}
 	res.Violations = violations
-	res.Queries = x.S.Queries
-	res.SolverTime = x.S.Time
+	res.Obligations, res.Discharged = m.i.obligations, m.i.discharged
+	res.Queries = x.S.Queries - q0
+	res.SolverTime = x.S.Time - t0s
 	res.MaxTrail = x.MaxTrail
 	res.FuncsTouched = touched
 	return res
+}
+
+// describePath renders the nondet inputs of the path just executed (evidence samples).
+func describePath(x *Explorer, outcome interface{}) string {
+	var sb strings.Builder
+	for k, v := range x.ndVars {
+		if k > 40 {
+			sb.WriteString(" ...")
+			break
+		}
+		if v.sort == "choice" {
+			fmt.Fprintf(&sb, "%s=%s ", v.name, v.term)
+		} else {
+			fmt.Fprintf(&sb, "%s:%s ", v.name, strings.TrimPrefix(strings.TrimSuffix(v.sort, ")"), "(_ "))
+		}
+	}
+	fmt.Fprintf(&sb, "| decisions=%d", len(x.trail))
+	switch o := outcome.(type) {
+	case nil:
+		sb.WriteString(" end=normal")
+	case pathInfeasible:
+		sb.WriteString(" end=assumption-infeasible")
+	default:
+		fmt.Fprintf(&sb, " end=%T", o)
+	}
+	return sb.String()
 }
 
 func firstLine(s string) string {
@@ -228,7 +292,7 @@ func (m *Machine) runOnce(fn *ssa.Function) (outcome interface{}) {
 	defer func() {
 		if r := recover(); r != nil {
 			outcome = r
-			if re, ok := r.(runtime.Error); ok && strings.Contains(re.Error(), "interp.") && !dumped {
+			if re, ok := r.(runtime.Error); ok && strings.Contains(re.Error(), "interp.") && !dumped && os.Getenv("SYMGO_DEBUG") != "" {
 				dumped = true
 				fmt.Fprintf(os.Stderr, "ENGINE BUG: %v\n%s\n", re, debug.Stack())
 			}
@@ -343,6 +407,28 @@ func init() {
 			return &sym{e: n, k: symBV, w: 16, gk: types.Int16}
 		},
 		ndPath + ".Itoa":    ndItoa,
+		ndPath + ".Param": func(fr *frame, args []value) value {
+			if v, ok := fr.i.params[args[0].(string)]; ok {
+				return v
+			}
+			return args[1].(int)
+		},
+		ndPath + ".Known": func(fr *frame, args []value) value { return fr.i.known[args[0].(string)] },
+		ndPath + ".Int": func(fr *frame, args []value) value {
+			lo, hi := args[1].(int), args[2].(int)
+			n := fr.i.x.freshVar(args[0].(string), "(_ BitVec 64)")
+			fr.i.x.decide([]string{fmt.Sprintf("(and (bvsle %s %s) (bvsle %s %s))", bvConst(uint64(int64(lo)), 64), n, n, bvConst(uint64(int64(hi)), 64))})
+			return &sym{e: n, k: symBV, w: 64, gk: types.Int}
+		},
+		ndPath + ".Bytes": func(fr *frame, args []value) value {
+			name, n := args[0].(string), args[1].(int)
+			s := make([]value, n)
+			for k := range s {
+				v := fr.i.x.freshVar(fmt.Sprintf("%s.%d", name, k), "(_ BitVec 8)")
+				s[k] = &sym{e: v, k: symBV, w: 8, gk: types.Uint8}
+			}
+			return s
+		},
 		"fmt.Sprintf":       extSprintf,
 		"fmt.Errorf":        extErrorf,
 		"fmt.Printf":        func(fr *frame, args []value) value { return tuple{0, iface{}} },
@@ -473,12 +559,23 @@ func ndAssert(fr *frame, args []value) value {
 	id := args[1].(string)
 	switch c := args[0].(type) {
 	case bool:
-		if !c {
+		fr.i.obligations++
+		if c {
+			fr.i.discharged++
+		}
+		if !c && !seenCrash["assert:"+id] {
+			seenCrash["assert:"+id] = true
 			_, model := fr.i.x.checkSat("true")
 			violations = append(violations, Violation{Kind: "assert", Msg: id, Model: model, Trail: trailChoices(fr.i.x), Values: replayValues(fr.i.x, model)})
 		}
 	case *sym:
-		if sat, model := fr.i.x.checkSat(symNot(c).e); sat {
+		fr.i.obligations++
+		fr.i.nontrivial = true
+		sat, model := fr.i.x.checkSat(symNot(c).e)
+		if !sat {
+			fr.i.discharged++
+		}
+		if sat {
 			if !seenCrash["assert:"+id] {
 				seenCrash["assert:"+id] = true
 				violations = append(violations, Violation{Kind: "assert", Msg: id, Model: model, Trail: trailChoices(fr.i.x), Values: replayValues(fr.i.x, model)})
